@@ -518,21 +518,26 @@ func runEvents(c *Ctx, r *Reporter) {
 				}
 			}
 			r.Check(okSet, fd.QName()+"#binds-converted", p.Rel(instrPos(conv)), "the converted payload value is bound in the handler's scope", "the value produced by valueFromAny is not what HandleEvent binds")
-			// length guard dominates the index
+			// length guard dominates the index: at the conversion a comparison is known that says len(payload) is not
+			// below the number of parameters, however it is written (`len(a) < n` false, `!(len(a) >= n)` false …)
 			okLen := false
-			for d := conv.Block(); d != nil; d = d.Idom() {
-				idom := d.Idom()
-				if idom == nil || len(idom.Instrs) == 0 {
+			isLen := func(v ssa.Value) bool {
+				lc, ok := v.(*ssa.Call)
+				if !ok {
+					return false
+				}
+				bi, ok := lc.Call.Value.(*ssa.Builtin)
+				return ok && bi.Name() == "len"
+			}
+			for _, f := range impliedConds(conv.Block()) {
+				bo, ok := f.Cond.(*ssa.BinOp)
+				if !ok {
 					continue
 				}
-				if ifi, ok := idom.Instrs[len(idom.Instrs)-1].(*ssa.If); ok {
-					if bo, ok := ifi.Cond.(*ssa.BinOp); ok && bo.Op == token.LSS {
-						if lc, ok := bo.X.(*ssa.Call); ok {
-							if bi, ok := lc.Call.Value.(*ssa.Builtin); ok && bi.Name() == "len" && edgeDominates(idom, 1, conv.Block()) || (ok && bi.Name() == "len" && idom.Succs[1].Dominates(conv.Block())) {
-								okLen = true
-							}
-						}
-					}
+				switch {
+				case bo.Op == token.LSS && isLen(bo.X) && !f.Truth, bo.Op == token.GEQ && isLen(bo.X) && f.Truth,
+					bo.Op == token.GTR && isLen(bo.Y) && !f.Truth, bo.Op == token.LEQ && isLen(bo.Y) && f.Truth:
+					okLen = true
 				}
 			}
 			r.Check(okLen, fd.QName()+"#length-guard", p.Rel(instrPos(conv)), "payload access is behind the len(args) < len(params) guard", "HandleEvent indexes the payload without a dominating length guard")
